@@ -82,7 +82,10 @@ def discharge(obls, axioms, z3_ms=10000, cvc5_s=20, procs=None, axioms_lite=None
     res = [None] * len(obls)
     for i, o in enumerate(obls):
         if z3.is_true(o.goal):
-            res[i] = dict(verdict="unsat", seconds=0.0, backend="trivial")
+            res[i] = dict(verdict="unsat", seconds=0.0, backend=getattr(o, "backend_hint", None) or "trivial")
+            continue
+        if z3.is_false(o.goal) and not o.pc and getattr(o, "backend_hint", None):
+            res[i] = dict(verdict="refuted", seconds=0.0, backend=o.backend_hint)
             continue
         jobs.append((i, to_smt2(axioms_lite if axioms_lite is not None else axioms, o.pc, o.goal),
                      to_smt2(axioms, o.pc, o.goal), z3_ms, cvc5_s))
